@@ -36,7 +36,8 @@ ProjOK(e) ==
   \/ /\ e.st.ws = S'.ws
      /\ e.st.cur = S'.cur
      /\ e.st.conc = S'.conc
-     /\ IF QKind = "prio" THEN Range(e.st.q) = Range(S'.q) /\ Len(e.st.q) = Len(S'.q) ELSE e.st.q = S'.q    \* Values() of the heap is not sorted
+     /\ \A k \in Queues : IF QKinds[k] = "prio" THEN Range(e.st.q[k]) = Range(S'.q[k]) /\ Len(e.st.q[k]) = Len(S'.q[k])    \* Values() of the heap is not sorted
+                         ELSE e.st.q[k] = S'.q[k]
      /\ e.st.idle = S'.idle
      \* a send to a channel whose receiver is parked is handed over directly: the buffer stays empty
      /\ (e.st.sig = -1) = S'.chanNil
@@ -52,7 +53,7 @@ ArgsOK(e, p) ==
   /\ e.ev = "purge.deq" => S'.loc[p].ok = e.ok
 
 \* lines that are not the end of a spec step: notes, and the second-layer hook points inside one step
-Inner == {"mgr.register", "ad.sub", "job.sp.load", "job.mc.load", "jclose.checked", "disp.cas.load", "reap.expired", "add.pre", "resp.stored"}
+Inner == {"ad.sub", "job.sp.load", "job.mc.load", "jclose.checked", "disp.cas.load", "reap.expired", "add.pre", "resp.stored"}
 NoStep == {"call", "ret", "c.start", "loop.start", "notify.sent", "notify.dropped", "free.push", "free.stop", "quiescent"} \cup Inner
 
 \* a line of a process parked at the label it reached
